@@ -16,7 +16,8 @@
 //!     unspecified -> both are allowed,
 //! and narrows that set with what the real loader shows (load results,
 //! `get_cached_values`). A violation is an observation no allowed configuration
-//! explains, or a panic, or a load that never completes.
+//! explains, or a panic, or a load that never completes. `get_cached_values` only
+//! narrows the set and keys the state; it is never judged by itself.
 
 use agv_engine::bfs::{bfs, BfsCfg, Step};
 use agv_engine::record::{Cx, Violation};
@@ -519,16 +520,13 @@ impl Model {
             }
             Ev::Bump(k) => self.ver[*k as usize] += 1,
         }
-        // narrow by the real cache contents ("Gets all values in the cache")
+        // narrow by the real cache contents ("Gets all values in the cache"). The property judges loads, not
+        // get_cached_values: when no allowed configuration has these contents the set is left as it is
+        // (the real contents are part of the state key, so exploration goes on) and the next load decides.
         let kept: BTreeSet<Conf> = self.confs.iter().filter(|c| conf_contents(c) == real.cached).cloned().collect();
-        if kept.is_empty() {
-            let allowed: Vec<BTreeMap<i32, i32>> = self.confs.iter().map(conf_contents).collect::<BTreeSet<_>>().into_iter().collect();
-            return Err(Disagree {
-                class: "cache-contents-differ",
-                detail: format!("after {}: get_cached_values() = {:?}, but the documented cache holds one of {:?}", ev.text(), real.cached, allowed),
-            });
+        if !kept.is_empty() {
+            self.confs = kept;
         }
-        self.confs = kept;
         Ok(stale_hit)
     }
 
@@ -606,7 +604,7 @@ pub fn run(cx: &Cx) {
     cx.assume("the order in which the keys of one load_many are refreshed/inserted is not documented: every permutation is accepted (the real order is forced both ways by the harness loader's map order)");
     cx.assume("whether a load executed while caching is disabled populates the cache is not documented: both are accepted; feed/clear/clear_one are documented without reference to the enable flags and must take effect regardless");
     cx.assume("LRU per its definition: a cache hit and an insert/update make the key most recently used; inserting into a full cache evicts the least recently used key; get_cached_values does not count as a use");
-    cx.assume("get_cached_values() ('Gets all values in the cache') is compared with the model's contents after every event; the store holds every key, so every requested key must be returned");
+    cx.assume("get_cached_values() is used only to narrow the set of allowed configurations and to merge states, never judged by itself (the statement is about load results and panics); the store holds every key, so every requested key must be returned");
 
     let alpha = alphabet();
     let mut per_kind = serde_json::Map::new();
